@@ -91,6 +91,7 @@ inductive Res
   | pending | ready               -- state of the future returned by `call`
   | pinc (stored : Item) (b : Bool)
   | isEnd (b : Bool)
+  | active (b : Bool)             -- `bool(gen)` = `!done()`
   | destroyed
   deriving DecidableEq, Repr
 
@@ -343,6 +344,14 @@ def stepFutRead (s : State) (r : Reader) : State × Res :=
     | .pending => if s.reader.isSome then (s, .busy) else ({ s with reader := some r }, .unit)
     | .ready i => ({ s with evs := s.evs ++ [readerEv r i] }, .unit)
 
+/-- `generator::operator bool` (`while (gen) …`): `!done()`, i.e. `!_done` — true before the first access, at every value, and
+also after an exception escaped the body (`_done` is only set by `return_void`) -/
+def stepActive (s : State) : State × Res :=
+  if !s.alive then (s, .gone)
+  else if inSync s then (s, .blocked)
+  else if inflight s then (s, .busy)
+  else (s, .active (!s.done))
+
 /-- an awaited operation finishes (on the consumer thread or on another one) -/
 def stepComplete (s : State) (k : Nat) : State × Res :=
   if k ∈ s.resolved then (s, .unit)
@@ -403,7 +412,7 @@ def stepItIsEnd (s : State) : State × Res :=
     | some b => (s, .isEnd (!b))
 
 inductive Op
-  | syncBegin (a : Nat) | syncEnd | value | anext (a : Nat) | sub (a : Nat) | call (a : Nat)
+  | syncBegin (a : Nat) | syncEnd | value | active | anext (a : Nat) | sub (a : Nat) | call (a : Nat)
   | futWait | futGet | futAwait | futHas
   | itBegin | itInc | itDeref | itIsEnd | itPostInc | itDrop
   | complete (k : Nat) | destroy
@@ -413,6 +422,7 @@ def step (s : State) : Op → State × Res
   | .syncBegin a => stepSyncBegin s .plain a
   | .syncEnd => stepSyncEnd s
   | .value => stepValue s
+  | .active => stepActive s
   | .anext a => stepAnext s a
   | .sub a => stepSub s a
   | .call a => stepCall s a
